@@ -6,6 +6,7 @@ CONSTANTS
  CommonU <- SmallU  CommonV <- SmallV
  FamStreams <- NoValues  FamBase = 3  FamGroups <- NoValues
  ParkA <- NoValues  ParkB <- NoValues
+ EncN <- NoValues
  Volume = FALSE
  MinSteps = 12  MaxSteps = 12
 CONSTRAINT Emit
